@@ -34,7 +34,13 @@ BaseCfg ==
    timetype |-> TRUE, durationtype |-> TRUE, durationcustom |-> "", customtypes |-> <<>>, suffixes |-> <<>>,
    channel |-> <<>>, fault |-> ""]
 
-Shape(id, d, cfg) == [id |-> id, d |-> d, cfg |-> cfg, root |-> "Root"]
+\* A shape: one root type of one plugin run.  run names the (d, cfg) pair (shapes of the same run share the
+\* generated package); group / role / gchecks tie runs together for relational clauses evaluated by the
+\* trace validator (same key => same value within a group); pair ties behaviours together line by line.
+NoPair == [key |-> "", role |-> "", clause |-> "", prop |-> "", maskattrs |-> <<>>, maskfields |-> <<>>]
+Shape(id, d, cfg) == [id |-> id, d |-> d, cfg |-> cfg, root |-> "Root", run |-> id,
+                      group |-> "", role |-> "", gchecks |-> <<>>, pair |-> NoPair]
+GCheck(kind, prop, clause) == [k |-> kind, p |-> prop, c |-> clause]
 
 \* ---- auxiliary messages
 Leaf == Msg("Leaf", <<Fld("Str", 1, "string")>>, <<>>)
@@ -77,7 +83,8 @@ ListShapes == <<
 MapShapes == <<
   Single("m.string", MapOf(Fld("Tags", 1, "string"))),
   Single("m.int32", MapOf(Fld("Tags", 1, "int32"))),
-  Single("m.enum", MapOf(Fld("Tags", 1, "enum"))) >>
+  Single("m.enum", MapOf(Fld("Tags", 1, "enum"))),
+  Single("m.bytes", MapOf(Fld("Tags", 1, "bytes"))) >>
 
 ObjShapes == <<
   WithLeaf("o.ptr", MsgF("Sub", 1, "Leaf")),
